@@ -7,6 +7,33 @@ import subprocess
 ROOT = os.path.dirname(os.path.dirname(os.path.abspath(__file__)))
 
 CHECKS = {
+    "C01": ("model_checking",
+            "stateless deviation-bounded exploration of the real planner+executor under a virtual kernel; order monitor on the kernel event log",
+            "For every small task graph (all shapes, listing orders, kinds, parallelizable flags, jobs) every completion order and "
+            "bounded exit-batching deviation is executed on the real planner/executor; the monitor works on spawn/exit events of the "
+            "process layer, not on Conductor's bookkeeping.",
+            "Trusted: virtual kernel rules (conformance-checked against Linux). Bounds: <=3 tasks all kinds, 4 tasks shared-dep shapes "
+            "(all shapes + 5 tasks in thorough), jobs<=3, deviations<=1 (2).",
+            "DESIGN.md §4 C01"),
+    "C02": ("model_checking",
+            "exhaustive enumeration of graphs x cache states x flags, each run on the real planner/executor under the virtual kernel, against a reference needed-set",
+            "All graphs x listing orders x kinds x cache states x {default,--again,--at-least} are executed; spawn/start multiset must equal "
+            "the reference needed set exactly once each.",
+            "Trusted: fake git (conformance-checked against git 2.39 in C05), reference needed-set written from the docs. Bounds: <=3 tasks "
+            "all kinds, 4 tasks selected kinds.",
+            "DESIGN.md §4 C02"),
+    "C03": ("model_checking",
+            "exhaustive enumeration of failing subsets x failure kinds x completion orders under the virtual kernel against a reference outcome function",
+            "Every subset of failing tasks with each failure kind (exit code, signal, launch OSError, combine conflict) is explored over "
+            "all completion orders, default and --stop-early.",
+            "Trusted: virtual kernel; --stop-early oracle limited to the statement's clauses. Bounds: <=3 (4) tasks, jobs<=3, deviations<=1 on small graphs.",
+            "DESIGN.md §4 C03"),
+    "C04": ("model_checking",
+            "state invariant evaluated at every spawn/sync-start of every interleaving explored under the virtual kernel",
+            "All parallelizable assignments x kinds x JOBS x completion interleavings of all graphs <=4 tasks (+ wide 5-task shapes); "
+            "the invariant is evaluated on the live-process set of the kernel at each start.",
+            "Trusted: virtual kernel. Bounds: <=4 tasks (5 for wide shapes), JOBS<=3 (4), deviations<=1 (2) for n<=3.",
+            "DESIGN.md §4 C04"),
     # id: (category, technique, level text, level note, design ref)
     "C09": ("model_checking",
             "stateless deviation-bounded exploration of the real executor + real Popen lifecycle under a virtual kernel",
